@@ -374,6 +374,7 @@ var d8entries = []d8entry{
 	{"ecckd", "FromSeed", "fromSeedGen", false, "BipErr", "(O : Oracles)", "O", "", "", ""},
 	{"ecckd", "FromBitcoinSeed", "fromBitcoinSeedGen", false, "BipErr", "(O : Oracles)", "O", "", "", ""},
 	{"ecckd", "ExtendedKey.Public", "publicGen", false, "BipErr", "", "", "", "", ""},
+	{"ecckd", "FromPublicKey", "fromPublicKeyGen", false, "Unit", "", "", "", "", ""},
 	{"", "PrivateKey.ECDH", "ecdhMethod", false, "Unit", "", "", "", "", ""},
 	{"", "Signature.Export", "exportGen", true, "", "", "", "", "", ""},
 	{"", "Sign", "signGen", false, "Unit", "", "", "", "", ""},
@@ -2456,6 +2457,16 @@ func (d *d8) retNode(st *ast.ReturnStmt, pre *[]*dnode) *dnode {
 		if call, ok := last.(*ast.CallExpr); ok {
 			if k := d.errKind(call); k != "" {
 				return d.rt(".err ." + k)
+			}
+		}
+		if call, ok := last.(*ast.CallExpr); ok && len(call.Args) == 1 && d.ent.errT == "Unit" {
+			// an entry with a single, kind-less failure: errors.New("…")
+			if sel, ok := call.Fun.(*ast.SelectorExpr); ok && sel.Sel.Name == "New" {
+				if x, ok := sel.X.(*ast.Ident); ok && x.Name == "errors" {
+					if _, ok := call.Args[0].(*ast.BasicLit); ok {
+						return d.rt(".err ()")
+					}
+				}
 			}
 		}
 		if call, ok := last.(*ast.CallExpr); ok && len(call.Args) >= 2 {
